@@ -476,6 +476,7 @@ def parse_for_each_variable_definition(
         "var",
         optional_keys={},
         mandatory_keys={
+            "var": str,
             "value": (dict, str),
         },
         context=context,
